@@ -597,6 +597,43 @@ func drawExchange(t *rapid.T) exchangeBatch {
 				}
 			}
 		}
+		if rapid.IntRange(0, 2).Draw(t, "nonascii") == 0 {
+			// sibling path segments that start with different characters of ONE UTF-8 lead byte
+			// (к/п: D0, ä/ö: C3, 日/本: E6) below a common non-ASCII prefix
+			words := []string{"книги", "полки", "ä", "ö", "日", "本"}
+			renamed := map[string]any{}
+			j := 0
+			var ks []string
+			for k := range paths {
+				ks = append(ks, k)
+			}
+			sort.Strings(ks)
+			for _, k := range ks {
+				renamed["/каталог/"+words[j%len(words)]+k] = paths[k]
+				j++
+			}
+			m["paths"] = renamed
+			paths = renamed
+		}
+		if rapid.IntRange(0, 2).Draw(t, "sumnames") == 0 {
+			// a component whose name is the Go name of a primitive variant, next to that primitive in a sum
+			comps, _ := m["components"].(map[string]any)
+			if comps == nil {
+				comps = map[string]any{}
+				m["components"] = comps
+			}
+			schemas, _ := comps["schemas"].(map[string]any)
+			if schemas == nil {
+				schemas = map[string]any{}
+				comps["schemas"] = schemas
+			}
+			pick := rapid.SampledFrom([][2]string{{"String", "string"}, {"Int", "integer"}, {"Bool", "boolean"}, {"Float64", "number"}}).Draw(t, "sumname")
+			if _, taken := schemas[pick[0]]; !taken {
+				schemas[pick[0]] = map[string]any{"type": "object", "properties": map[string]any{"a": map[string]any{"type": "string"}}}
+				paths["/zsumnames"] = map[string]any{"get": map[string]any{"operationId": "zsumnames", "responses": map[string]any{"200": map[string]any{"description": "r",
+					"content": map[string]any{"application/json": map[string]any{"schema": map[string]any{"oneOf": []any{map[string]any{"type": pick[1]}, map[string]any{"$ref": "#/components/schemas/" + pick[0]}}}}}}}}}
+			}
+		}
 		text, _ := jsonMarshal(m)
 		b.Items = append(b.Items, Case{Name: fmt.Sprintf("exchange%d", i), Spec: string(text), Config: cfgs[rapid.IntRange(0, len(cfgs)-1).Draw(t, "config")]})
 	}
